@@ -174,6 +174,9 @@ func (m *Cert) checkBlock(c *vnet.Cluster, n *vnet.Node, e *vnet.Event) {
 	}
 	switch {
 	case info.Valid >= M:
+	case info.InvalidLate == 0 && info.Valid+info.InvalidEarly >= M && d.IsPrimary() && !d.Context.WatchOnly():
+		// the recorded finding concerns nodes that *receive* the proposal; a primary validates early payloads when it proposes
+		m.fail(c, "early-unverified-commit-at-primary", "primary n%d accepted block %s at (%d,%d) with only %d/%d verifying current-view commits; %d commit(s) stored before its own proposal never verified", n.ID, b.Hash(), d.BlockIndex, d.ViewNumber, info.Valid, M, info.InvalidEarly)
 	case info.InvalidLate == 0 && info.Valid+info.InvalidEarly >= M:
 		m.fail(c, "early-unverified-commit", "n%d accepted block %s at (%d,%d) with only %d/%d verifying current-view commits; %d commit(s) stored before the proposal never verified", n.ID, b.Hash(), d.BlockIndex, d.ViewNumber, info.Valid, M, info.InvalidEarly)
 	default:
@@ -248,6 +251,8 @@ func (m *Cert) checkPreBlock(c *vnet.Cluster, n *vnet.Node, e *vnet.Event) {
 	}
 	switch {
 	case info.Valid >= M:
+	case info.InvalidLate == 0 && info.Valid+info.InvalidEarly >= M && d.IsPrimary() && !d.Context.WatchOnly():
+		m.fail(c, "early-unverified-precommit-at-primary", "primary n%d handed over pre-block %s at (%d,%d) with only %d/%d verifying current-view pre-commits; %d stored before its own proposal never verified", n.ID, pb.Hash(), d.BlockIndex, d.ViewNumber, info.Valid, M, info.InvalidEarly)
 	case info.InvalidLate == 0 && info.Valid+info.InvalidEarly >= M:
 		m.fail(c, "early-unverified-precommit", "n%d handed over pre-block %s at (%d,%d) with only %d/%d verifying current-view pre-commits; %d stored before the proposal never verified", n.ID, pb.Hash(), d.BlockIndex, d.ViewNumber, info.Valid, M, info.InvalidEarly)
 	default:
